@@ -378,6 +378,21 @@ def m_slice_get(eng, m, args, dest_ts, st, where):
     return ite(ok, mk_variant(dt, 'Some', [e]), mk_variant(dt, 'None'))
 
 
+@model('slice::{first_mut,last_mut,get_mut}', r'^(?:core::slice::<impl \[.+\]>|Vec::<.+>)::(first|last|get)_mut(?:::<.*>)?$')
+def m_slice_get_mut(eng, m, args, dest_ts, st, where):
+    r = args[0]
+    if not isinstance(r, Ref):
+        raise Unsupported('%s_mut on a non-reference' % m.group(1))
+    v = eng.read_ref(st, r)
+    dt = eng.ty(dest_ts)
+    k = m.group(1)
+    idx = bv(0, 64) if k == 'first' else (v.len - 1 if k == 'last' else deref(eng, st, args[1]).t)
+    if v.n == 0 or all(x is None for x in v.slots[:v.n]):
+        return mk_variant(dt, 'None')
+    ok = z3.ULT(idx, v.len) if k != 'last' else v.len != 0
+    return ite(ok, mk_variant(dt, 'Some', [Ref(r.root, r.path + (('si', idx),))]), mk_variant(dt, 'None'))
+
+
 @model('Index<usize> for Vec / slices', r'^<(?:Vec<.+>|\[.+\]) as Index(?:Mut)?<usize>>::index(?:_mut)?$')
 def m_index(eng, m, args, dest_ts, st, where):
     v = deref(eng, st, args[0])
